@@ -123,6 +123,8 @@ ALSO_SERVES["C16"] = ["urwid/widget/grid_flow.py:GridFlow._contents_modified",
 # `a in self._pal_escape` lookup are AttrSpec.__eq__ / __hash__ when AttrSpec objects are canvas attributes; AttrMap's
 # attribute dictionaries are keyed by them too: equal exactly when the packed words are equal, hash a function of the word.
 _ATTRSPEC_IDENTITY = ["urwid/display/common.py:AttrSpec.__eq__", "urwid/display/common.py:AttrSpec.__hash__", "lemma:equal-attrspecs-have-equal-hashes"]
+# C19 "the requested size when it fits beside the fixed margins" for a Padding asked for its natural size (size ())
+ALSO_SERVES["C19"] = ["urwid/widget/padding.py:Padding.padding_values#fixed"]
 ALSO_SERVES["C04"] = ALSO_SERVES["C04"] + _ATTRSPEC_IDENTITY
 ALSO_SERVES["C17"] = ALSO_SERVES["C17"] + _ATTRSPEC_IDENTITY
 
